@@ -19,6 +19,10 @@ ShadowEntry(step, e) ==
   /\ e.via = "str"                  \* names resolved from QualifiedName objects are registered in the bundle itself
   /\ e.up.ok /\ Uri(e.up) = e.uri
   /\ e.now.ok /\ Uri(e.now) # e.uri
+  \* not explained by the finding: a bare name in a scope that had itself been told
+  \* (set_default_namespace) to use the name's namespace as its default - that name is the scope's own
+  /\ ~("asked" \in DOMAIN e /\ e.str.k = "bare" /\ e.asked # <<>>
+       /\ e.asked = SubSeq(e.uri, 1, Len(e.uri) - Len(e.str.l)))
 
 KF_C03c(step) ==
   LET bad == {i \in 1..Len(step.reres) : ~C03cEntry(step.reres[i])} IN
